@@ -149,25 +149,19 @@ class Unit:
             import random
             rng = random.Random(hash((self.name, label)) & 0xFFFF)
             bad_e = _as_expr(bad)
-            for _ in range(4):
+            for _ in range(6):
                 values = ctx.diverse_model(rng)
                 if values is None:
                     break
-                try:
-                    env = {k: (Fraction(v) if not isinstance(v, bool) else v) for k, v in values.items()}
-                    hit = bool(K.evalz(bad_e, env, {}))
-                except (KeyError, ZeroDivisionError, Unsupported):
-                    break
-                if hit:
-                    status, detail = self.replay(label, values)
-                    if status in ("reproduced", "reproduced_other"):
-                        state["violations"].append({
-                            "unit": self.name, "label": label, "values": jsonable(values),
-                            "detail": detail + " (candidate from a path-condition model after solver 'unknown')",
-                            "signature": self.signature(label, values, detail), "decisions": [t[0] for t in ctx.trace]})
-                        if len(state["violations"]) >= self.max_violations:
-                            raise StopUnit()
-                        return
+                status, detail = self.replay(label, values)
+                if status in ("reproduced", "reproduced_other"):
+                    state["violations"].append({
+                        "unit": self.name, "label": label, "values": jsonable(values),
+                        "detail": detail + " (candidate from a path-condition model after solver 'unknown')",
+                        "signature": self.signature(label, values, detail), "decisions": [t[0] for t in ctx.trace]})
+                    if len(state["violations"]) >= self.max_violations:
+                        raise StopUnit()
+                    return
             state["unknown"].append(label)
             return
         tries = 0
